@@ -210,4 +210,6 @@ def run(ctx):
             r5.ok(key, "", s.loc)
         else:
             r5.violation(key, "open() runs before the session is stored: a failing open cannot be reported to the writer", s.loc)
-    r5.floor(7, "creation facts")
+    from . import c03 as _c03
+    _c03.md5_switch_order(ctx, r5)
+    r5.floor(8, "creation facts")
